@@ -575,8 +575,10 @@ theorem main_attrNameSemOk : Gen.main.all attrNameSemOk = true := by decide +ker
     `wv_datetime_by_value`, `datetime_by_value(_canon)`, `base64_by_value` say what text comes back
     (the normal forms `wvIntNorm`, `datetimeNorm`, `b64Norm`, each idempotent), but they are not yet
     threaded through `srcToks` (the view of a typed text depends on `current_tag`, i.e. on the
-    position — `srcToks` is position-free). The tree-level statement `treeOfWbxml … = norm t`
-    additionally needs the builder's merging of adjacent character data (C03). -/
+    position — `srcToks` is position-free); the position-dependent view `vTree` of
+    `denotes_source_typed` below does that for 26 languages (typed attribute values, DRMREL
+    `ds:KeyValue`, binary-flagged elements, aliased names). The tree-level statement
+    `treeOfWbxml … = norm t` additionally needs the builder's merging of adjacent character data (C03). -/
 theorem denotes_source_partial (cfg : X2WCfg) (t : Tree) (bs : Bytes) (lang : Lang) (r : Node)
     (hlang : t.lang = some lang) (hroot : t.root = some r)
     (hl : langOk lang = true) (hover : treeOver lang t = true) (h : treeToWbxml cfg t = .ok bs)
@@ -600,6 +602,56 @@ theorem denotes_source_partial (cfg : X2WCfg) (t : Tree) (bs : Bytes) (lang : La
   have hp := Props.C04.parse_ser pcfg d hwf
   rw [← hres.ser] at hp
   exact ⟨hwf, hp.1, hp.2, by rw [hp.2]; exact hden⟩
+
+/-- **`denotes_source` with typed content and aliases: 26 of the 29 languages** (every language but
+    Wireless Village 1.1/1.2 and OTA settings — for those three the encoder never uses a string
+    table, and `C07.enc_opts_same_events` says that ALL their option tuples give the same events).
+    For a plain tree (no CDATA section, no embedded document) under the four source hypotheses of
+    `enc_is_ser_wf`: the output is `Spec.ser d` of a well-formed `d`, the parser accepts it, and the
+    events it delivers have exactly the TYPED source view `vTree (dcfgOf cfg lang) r`, which is
+    defined by recursion over the source tree and looks at no option but the white-space policy:
+
+    * element names as the reader's table resolves the token written (`nameView`: for ActiveSync,
+      where two names share a token, the first alias; the name itself everywhere else);
+    * attributes in order with `vAttrValue`: the value as a C string, and for an SI `created` /
+      `si-expires` or EMN `timestamp` value the text `decode_datetime` makes of the BCD payload the
+      encoder makes of it (`datetime_by_value`: the same instant, `datetimeNorm`);
+    * character data `vText`: `normText`; under a DRMREL `ds:KeyValue` token element the base64 text
+      of the decoded octets (`base64_by_value`: `b64Norm`); the raw octets under a binary-flagged
+      ActiveSync tag.
+    `_partial` no more for the languages; what stays outside is CDATA / embedded documents (their
+    position-dependent view: an OPAQUE whose octets depend on the version for an embedded document). -/
+theorem denotes_source_typed (cfg : X2WCfg) (t : Tree) (bs : Bytes) (lang : Lang) (r : Node)
+    (hlang : t.lang = some lang) (hroot : t.root = some r)
+    (hl : langOk lang = true) (htl : typedLangOk lang = true) (hover : treeOver lang t = true)
+    (h : treeToWbxml cfg t = .ok bs)
+    (hcdata : noCdataInTyped lang false r = true) (hdt : validDatetimeAttrs lang r = true)
+    (hb64 : b64TextDecodes (dcfgOf cfg lang) none r = true)
+    (hkv : keyValueTextFirst (dcfgOf cfg lang) none true r = true)
+    (hpn : plainNode r = true) (hnw : isWv lang.id = false) (hno : (lang.id == 1901) = false)
+    (hvs : valSemOk lang = true) (has : attrSemOk lang = true) (han : attrNameSemOk lang = true) :
+    ∃ d : Doc, bs = Spec.ser d ∧
+      ∀ pcfg : PCfg, headerLang pcfg d.hdr = some lang →
+        (headerCharset pcfg d.hdr = 3 ∨ headerCharset pcfg d.hdr = 106) →
+        pcfg.charsets.contains (headerCharset pcfg d.hdr) = true →
+        cfg.version < 256 → bs.length < 4294967296 →
+        d.WF pcfg ∧ (parse pcfg bs).result = .ok () ∧
+        (parse pcfg bs).events = Spec.events pcfg d ∧
+        (parse pcfg bs).events.flatMap toks = vTree (dcfgOf cfg lang) r := by
+  obtain ⟨r', d, st, hr', hres⟩ := treeToWbxml_doc cfg t bs lang hlang hl hover h
+  rw [hroot] at hr'; injection hr' with hr'; subst hr'
+  refine ⟨d, hres.ser, ?_⟩
+  intro pcfg h1 h2 h3 h4 h5
+  have hden := hres.denotesT hl htl hpn hnw hno hvs has han pcfg h1
+  have hwf := hres.wfTyped hl htl hcdata hdt hb64 hkv pcfg h1 h2 h3 h4 h5
+  have hp := Props.C04.parse_ser pcfg d hwf
+  rw [← hres.ser] at hp
+  exact ⟨hwf, hp.1, hp.2, by rw [hp.2]; exact hden⟩
+
+/-- The languages `denotes_source_typed` applies to: all but Wireless Village 1.1/1.2 and OTA settings. -/
+theorem typed_view_languages :
+    (Gen.main.filter (fun l => isWv l.id || l.id == 1901)).map (·.id) = [1901, 2301, 2302] ∧
+    (Gen.main.filter (fun l => !(isWv l.id || l.id == 1901))).length = 26 := by decide +kernel
 
 /-- The languages `denotes_source_partial` applies to: the table facts `langOk`, `valSemOk`,
     `attrSemOk`, `attrNameSemOk` hold for all 29 entries and `tagSemOk` for all but ActiveSync
